@@ -176,6 +176,8 @@ pub fn run(case: &Value, ctx: &Ctx) -> Outcome {
                 "text_shape_empty" => b"#SHAPE=<>\n1 2 3\n".to_vec(),
                 "text_shape_zero" => b"#SHAPE=<0>\n\n".to_vec(),
                 "text_shape_overflow" => b"#SHAPE=<4294967296/4294967296/4294967296>\n1 2 3\n".to_vec(),
+                "text_shape_zero_overflow" => b"#SHAPE=<0/4294967296/4294967296>\n\n".to_vec(),
+                "npy_shape_zero_overflow" => crate::fam_npy::assemble(1, &format!("{:<117}\n", "{'descr': '<f8', 'fortran_order': False, 'shape': (0, 4294967296, 4294967296), }"), &[]),
                 "text_shape_negative" => b"#SHAPE=<-3>\n1 2 3\n".to_vec(),
                 "text_huge_value" => b"#SHAPE=<3>\n1e999 -1e999 1e-999\n".to_vec(),
                 "text_nan_values" => b"#SHAPE=<3>\nNaN inf -inf\n".to_vec(),
